@@ -6,6 +6,9 @@ from hypothesis import given, strategies as st
 from harness import core, ir, opgrid, refsem, env
 from harness.recorder import REAL_FIELDS
 
+RULE_PROGRAMS = (" (d) multi-statement programs of integer/boolean operations (incl. augmented assignment, copies, repeated operands) "
+                 "against a Python model kept by the harness: every result is compared with the reference applied to the MODEL values "
+                 "of its operands, and every modelled value is read again at the end, so values changed behind the program's back surface.")
 RULE = ("(operator, operand kinds incl. reflected forms and int/bool/LinCombBool mixes, operand values, bitlength). "
         "Grid part: every operator x every operand-type combination x the full operand square [-2^b-2, 2^b+2]^2 "
         "(booleans {0,1}) at small bitlengths, enumerated completely. Random part: Hypothesis cases at bitlength 2..32 "
@@ -221,8 +224,87 @@ def random_shard(seed, n_examples):
     return stats
 
 
+def model_check(prog):
+    """Multi-statement program against a Python model kept by the harness: every integer/boolean value is modelled by the
+    value the reference semantics gives for its operation on the MODEL values of its operands, so a wrong result and an
+    earlier value changed behind the program's back both surface; at the end every modelled value is read again.
+    Returns (message or None, number of operations compared)."""
+    model = {}
+    compared = [0]
+    msgbox = []
+
+    def after(m, stmt, out):
+        if msgbox:
+            return
+        n = len(m.vals)
+        if stmt[0] in ("in", "const"):
+            if m.types[n - 1] in "IBib" and (n - 1) not in model:
+                model[n - 1] = int(m.refval(n - 1))
+            return
+        if stmt[0] != "op" or stmt[1] not in OPS + ["copy", "deepcopy"] or out is None or out[0] != "ok":
+            return
+        refs = stmt[2]
+        if any(i not in model for i in refs):
+            return
+        ts = "".join(m.types[i] for i in refs)
+        vals = [model[i] if m.types[i] not in "b" else bool(model[i]) for i in refs]
+        cfg = dict(m.cfg)
+        cfg["_p"] = m.p
+        exp = refsem.ref(stmt[1], vals, ts, cfg)
+        new = list(out[1])
+        if stmt[1] == "pow" and ts[0] == "B":
+            exp = refsem.SKIP          # LinCombBool ** x: the recorded known finding, judged by the single-operation grid
+        if exp is refsem.SKIP or exp is refsem.RAISES or not refsem.in_core(stmt[1], vals, ts, cfg):
+            for i in new:
+                if 0 <= i < n and m.types[i] in "IBib":
+                    model[i] = int(m.refval(i))
+            return
+        want = list(exp[1:])
+        if len(want) != len(new) or any(m.types[i] not in "IBib" for i in new):
+            return
+        for i, w in zip(new, want):
+            g = int(m.refval(i))
+            if abs(w) < m.p // 2 and (g - w) % m.p:
+                msgbox.append("statement %r: result %d, the model (Python on the values the program created) gives %d; model operands %r, "
+                              "operands as reported now %r" % (stmt, g, w, vals, [m.refval(j) for j in refs]))
+            model[i] = w if abs(w) < m.p // 2 else g
+        compared[0] += 1
+    m = ir.run_program(prog, after=after)
+    if msgbox:
+        return msgbox[0], compared[0]
+    if m.raised is None:
+        for i, w in model.items():
+            if i < len(m.vals) and m.types[i] in "IB" and (int(m.refval(i)) - w) % m.p:
+                return "value v%d was %d when it was created and reports %d at the end of the program" % (i, w, int(m.refval(i))), compared[0]
+    return None, compared[0]
+
+
+def program_shard(seed, n_examples):
+    stats = core.Stats()
+    known = core.load_known("C05")
+    int_ops = list(OPS) + ["copy", "deepcopy"]
+
+    @given(st.data())
+    def test(data):
+        draw = data.draw
+        cfg = {"p": draw(st.sampled_from(sorted(REAL_FIELDS))), "b": draw(st.sampled_from([4, 8, 16, 32])), "r": 0, "ignore": False}
+        m, labels = ir.generate(draw, st, cfg, draw(st.integers(2, 8)), ops=int_ops, allow_guard=False, p_out_of_domain=0.0, wrap_values=False)
+        prog = m.program()
+        msg, ncmp = model_check(prog)
+        stats.case(prog if ncmp >= 2 else None, ncmp >= 2, ("program", "ops-compared:%d" % min(ncmp, 6)))
+        if msg:
+            raise core.Violation(dict(prog, part="program"), msg, "program.model-disagrees")
+
+    v = core.drive(test, seed, n_examples)
+    if v is not None:
+        stats.violations.append({"case": v.case, "msg": v.msg, "key": v.key})
+    return stats
+
+
 def replay(case):
     """case is the single-op program"""
+    if case.get("part") == "program":
+        return model_check(case)[0]
     stmts = case["stmts"]
     opstmt = stmts[-1]
     args = []
@@ -247,7 +329,7 @@ def cells():
 
 
 def run(ctx):
-    ctx.rule = RULE
+    ctx.rule = RULE + RULE_PROGRAMS
     ctx.assumptions = ["plain-Python reference semantics (harness/refsem.py), incl. the width-relative model for ~ on integers",
                        "values compared modulo the field prime; results with |true value| >= p/2 not compared"]
     cs = cells()
@@ -268,6 +350,8 @@ def run(ctx):
     total.merge_json(core.run_shards("harness.checks.c05", "wide_grid_shard", [dict(p=pp) for pp in ("bn128", "bls12-381")]).to_json())
     total.merge_json(core.run_shards("harness.checks.c05", "random_shard",
                                      [dict(seed=ctx.seed * 1000 + i, n_examples=nrand) for i in range(nshards)]).to_json())
+    total.merge_json(core.run_shards("harness.checks.c05", "program_shard",
+                                     [dict(seed=ctx.seed * 1000 + 500 + i, n_examples=120 if ctx.tier == "quick" else 3000) for i in range(8)]).to_json())
     total.extra["grids_enumerated_completely"] = [{"bitlength": b, "field": p, "cells": len(cs)} for b, p in grids]
     ctx.exhaustive = False
     ctx.stats = total
